@@ -2,8 +2,27 @@ module verif
 
 go 1.23.6
 
-require github.com/aptpod/iscp-go v0.0.0
+require (
+	github.com/aptpod/iscp-go v0.0.0
+	github.com/google/uuid v1.3.0
+)
 
-require github.com/google/uuid v1.3.0 // indirect
+require golang.org/x/mod v0.23.0 // indirect
+
+require (
+	github.com/aptpod/iscp-proto v0.0.0-20230808235245-fada26057efa
+	github.com/coder/websocket v1.8.12 // indirect
+	github.com/gogo/protobuf v1.3.2 // indirect
+	github.com/quic-go/qpack v0.5.1 // indirect
+	github.com/quic-go/quic-go v0.50.0 // indirect
+	github.com/quic-go/webtransport-go v0.8.1-0.20241018022711-4ac2c9250e66 // indirect
+	golang.org/x/crypto v0.35.0 // indirect
+	golang.org/x/exp v0.0.0-20250218142911-aa4b98e5adaa // indirect
+	golang.org/x/net v0.35.0 // indirect
+	golang.org/x/sync v0.11.0 // indirect
+	golang.org/x/sys v0.30.0 // indirect
+	golang.org/x/text v0.22.0 // indirect
+	golang.org/x/tools v0.30.0
+)
 
 replace github.com/aptpod/iscp-go => /repo
